@@ -256,6 +256,14 @@ def run(ck, m):
     from props.C08 import unwatch_removes_only_own
     unw = [b for b in wl if any(callee_decl(t) == 'std::vec::Vec::retain' for _, t in b.calls())]
     ck.floor('C03.e', len(unw), 1, 'unwatch functions (retain + store)')
+    # a removal of ONE element (position + remove / swap_remove) drops one registration, not all of the session's
+    SENDERS = 'std::vec::Vec::<futures::futures_channel::mpsc::Sender<std::string::String>>::'
+    for b in node_bodies(m):
+        single = [bi for bi, t in b.calls() if t['f'].get('dargs', '').startswith(SENDERS) and callee_decl(t).split('::')[-1] in ('swap_remove', 'remove', 'pop')]
+        if single and any(l == 'Watchers.map' for l, _ in S.get(b.id, ())):
+            ck.ob('C03.e', short(b.id), 'removes-every-registration', False,
+                  '%s removes a single element of the watcher list (%s): a session that watched the key twice keeps one registration after its '
+                  'unwatch / unwatch-all and goes on receiving notifications' % (short(b.id), [b.loc(x) for x in single]), b.loc(single[0]))
 
     class Ev:      # minimal shim for the shared helper
         pass
